@@ -26,7 +26,7 @@ const SIMULATED: &[&str] = &["network (frames of octet strings between roles)", 
 static C01: Check = Check {
     property: "C01",
     level: "exploration",
-    rule: "one run = 1-3 issuance sessions (suite, key material, key_info, header, L messages drawn per run) interleaved on an issuer and a holder thread, with neutral faults only (absent<->empty toggles, swap of equal messages, dup+drop, frame duplication, issuer/holder crash-restart with reload from octets/coordinates/JSON); a case = one (statement, delivered octets) pair that reached sign/verify; distinct = distinct SHA-256 of that content; in 1 run of 6: a free-running BURST (several nodes released into the library at the same time, outcomes judged by oracles that hold for any interleaving) of 3-5 keygen+sign+verify calls with L in {3..130} (4 KiB messages sometimes), each signature re-verified and re-signed serially afterwards; SIZE SWEEP: every run adds one honest flow whose list length is the run index modulo 300 (1200 thorough), so a batch walks through every length 0..299 for both suites; long lists carry repeated messages in 1 run of 3; the process runs with a log sink at Trace level",
+    rule: "one run = 1-3 issuance sessions (suite, key material, key_info, header, L messages drawn per run) interleaved on an issuer and a holder thread, with neutral faults only (absent<->empty toggles, swap of equal messages, dup+drop, frame duplication, issuer/holder crash-restart with reload from octets/coordinates/JSON); a case = one (statement, delivered octets) pair that reached sign/verify; distinct = distinct SHA-256 of that content; in 1 run of 6: a free-running BURST (several nodes released into the library at the same time, outcomes judged by oracles that hold for any interleaving) of 3-5 keygen+sign+verify calls with L in {3..130} (4 KiB messages sometimes), each signature re-verified and re-signed serially afterwards; SIZE SWEEP: every run adds one honest flow whose list length is the run index modulo 300 (1200 thorough), so a batch walks through every length 0..299 for both suites; long lists carry repeated messages in 1 run of 3; the process runs with a log sink at Trace level; 1 run in 97 signs a message of 16 MiB + 1 octets; the thorough tier signs one credential of 17000 messages; every environment variable the library's sources read is set (64 octets of hex) before the first library call",
     quick_runs: 600,
     thorough_runs: 2000,
     run: scen_sig::run_c01,
@@ -53,7 +53,7 @@ static C02: Check = Check {
 static C03: Check = Check {
     property: "C03",
     level: "exploration",
-    rule: "one run = 1-2 presentation sessions Issuer -> Holder -> Verifier; the Holder's proof_gen runs the production randomness path on its own thread fed by the node's deterministic entropy stream (with injected EINTR / short reads), possibly after a holder restart and with tick preemption inside create_generators / messages_to_scalar / calculate_random_scalars; disclosure sets: all 2^L subsets in rotation for L<=6, none/all/random for larger L; header, ph in {absent, empty, bytes}; neutral faults only on the Presentation frame (absent<->empty toggles, JSON codec, frame duplication, verifier restart); oracle MustAccept + proof length == 272+32U; a case = one delivered presentation; in 1 run of 8: a free-running BURST (several nodes released into the library at the same time, outcomes judged by oracles that hold for any interleaving) of 3-6 issuances followed by 2-7 back-to-back presentations per holder (L in {1,2,5,40,66,90}), every proof verified and round-tripped serially afterwards; SIZE SWEEP: every run adds one honest flow whose list length is the run index modulo 300 (1200 thorough), so a batch walks through every length 0..299 for both suites; long lists carry repeated messages in 1 run of 3; the process runs with a log sink at Trace level; JSON is decoded through serde_json::from_str, from_reader or from_value (picked by the length of the text)",
+    rule: "one run = 1-2 presentation sessions Issuer -> Holder -> Verifier; the Holder's proof_gen runs the production randomness path on its own thread fed by the node's deterministic entropy stream (with injected EINTR / short reads), possibly after a holder restart and with tick preemption inside create_generators / messages_to_scalar / calculate_random_scalars; disclosure sets: all 2^L subsets in rotation for L<=6, none/all/random for larger L; header, ph in {absent, empty, bytes}; neutral faults only on the Presentation frame (absent<->empty toggles, JSON codec, frame duplication, verifier restart); oracle MustAccept + proof length == 272+32U; a case = one delivered presentation; in 1 run of 8: a free-running BURST (several nodes released into the library at the same time, outcomes judged by oracles that hold for any interleaving) of 3-6 issuances followed by 2-7 back-to-back presentations per holder (L in {1,2,5,40,66,90}), every proof verified and round-tripped serially afterwards; SIZE SWEEP: every run adds one honest flow whose list length is the run index modulo 300 (1200 thorough), so a batch walks through every length 0..299 for both suites; long lists carry repeated messages in 1 run of 3; the process runs with a log sink at Trace level; JSON is decoded through serde_json::from_str, from_reader or from_value (picked by the length of the text); 1 run in 100: 400 draws of 2000 random scalars must all come back complete; 1 run in 100: an EXTREME-SIZE flow (2600 / 3200 messages signed, presented, verified on a thread with a 256 KiB stack) in a child process -- a child that dies is a violation",
     quick_runs: 500,
     thorough_runs: 2000,
     run: scen_proof::run_c03,
@@ -61,7 +61,7 @@ static C03: Check = Check {
     real: REAL,
     simulated: SIMULATED,
     exhaustive_after: None,
-    probes: &["U=0", "R=0", "L=0", "EINTR_during_proof_gen", "short_read_during_proof_gen", "holder_restart_before_proof_gen", "proof_gen_drew_fresh_entropy", "preempted_inside.calculate_random_scalars", "preempted_inside.create_generators"],
+    probes: &["U=0", "R=0", "L=0", "EINTR_during_proof_gen", "short_read_during_proof_gen", "holder_restart_before_proof_gen", "proof_gen_drew_fresh_entropy", "preempted_inside.calculate_random_scalars", "preempted_inside.create_generators", "random_draw_count_volume", "extreme_size_in_a_child_process"],
 };
 static C04: Check = Check {
     property: "C04",
@@ -94,7 +94,7 @@ static C08: Check = Check {
 static C09: Check = Check {
     property: "C09",
     level: "fault_enumeration",
-    rule: "per artefact type {PublicKey, SecretKey, Signature, BlindSignature, PoKSignature, ZKPoK, Commitment, BlindFactor} and ciphersuite, around an honest encoding: (part 0) store round trips across a node restart in every codec (octets, JSON, pk coordinates), extension by 1..=64 octets x 3 content classes, truncation to every length; (part 1) every single-bit flip; (part 2) every non-canonical / forbidden substitution in every point and scalar slot (scalar+r, +2r, =r, =2^256-1, =0, =r-1; identity, identity+sort flag, infinity flag with non-zero x, compression flag cleared, infinity flag on a point, non-subgroup point, off-curve x, x>=p, sort flag flipped); run index -> (suite, type, part): 48 consecutive runs enumerate everything; oracle: accepted => re-encoding equals the delivered octets, forbidden class => Err; a case = one delivered octet string that reached a decoder (wrong lengths for fixed-size array parameters are excluded by the type and not counted); the coordinate form x || y fed to the octet decoder (a foreign encoding of the same key), and forbidden coordinates (a curve point outside the subgroup, a point off the curve, infinity); the library's key store (KeyPair::write_keypair_to_file) on a path with each of four histories (nothing there, a longer older document, a shorter one, another key pair written just before), a crash of the role, and the reload of the file; JSON decoded through from_str / from_reader / from_value; signature octets of other lengths through the slice entry points (proof_gen, blind_proof_gen); one extra run per 49 GRINDS: four threads walk k*G until they meet points of G1 whose x-coordinate starts with the leading octets 1a 01 11 of the field modulus, fed to the signature and commitment decoders",
+    rule: "per artefact type {PublicKey, SecretKey, Signature, BlindSignature, PoKSignature, ZKPoK, Commitment, BlindFactor} and ciphersuite, around an honest encoding: (part 0) store round trips across a node restart in every codec (octets, JSON, pk coordinates), extension by 1..=64 octets x 3 content classes, truncation to every length; (part 1) every single-bit flip; (part 2) every non-canonical / forbidden substitution in every point and scalar slot (scalar+r, +2r, =r, =2^256-1, =0, =r-1; identity, identity+sort flag, infinity flag with non-zero x, compression flag cleared, infinity flag on a point, non-subgroup point, off-curve x, x>=p, sort flag flipped); run index -> (suite, type, part): 48 consecutive runs enumerate everything; oracle: accepted => re-encoding equals the delivered octets, forbidden class => Err; a case = one delivered octet string that reached a decoder (wrong lengths for fixed-size array parameters are excluded by the type and not counted); the coordinate form x || y fed to the octet decoder (a foreign encoding of the same key), and forbidden coordinates (a curve point outside the subgroup, a point off the curve, infinity); the library's key store (KeyPair::write_keypair_to_file) on a path with each of four histories (nothing there, a longer older document, a shorter one, another key pair written just before), a crash of the role, and the reload of the file; JSON decoded through from_str / from_reader / from_value; signature octets of other lengths through the slice entry points (proof_gen, blind_proof_gen); one extra run per 49 GRINDS: four threads walk k*G until they meet points of G1 whose x-coordinate starts with the leading octets 1a 01 11 of the field modulus, fed to the signature and commitment decoders; a burst of four roles storing different key pairs into one directory at the same time, 60 writes each, every write read back",
     quick_runs: 49,
     thorough_runs: 196,
     run: scen_codec::run_c09,
@@ -135,7 +135,7 @@ static C06: Check = Check {
 static C07: Check = Check {
     property: "C07",
     level: "exploration",
-    rule: "one run = one credential (plain and blind) and K in 2..6 holder nodes, each on its own OS thread with its own entropy stream, each performing 2..6 generations (proof_gen, blind_proof_gen, commit, KeyPair::random + BlindFactor::random) on the SAME inputs, the first generation of every holder being the same operation, interleaved by the scheduler with tick preemption, holder crash-restart (fresh thread_rng) and EINTR / short reads in between; the wire monitor holds every witness and, over the whole history of the run, requires: recomputed blindings e~, m~_j, s~, cm~_i non-zero, >= 2^160 and pairwise distinct; responses, Abar, Bbar, D, commitments, blind factors, random keys never repeated; no 32/48-octet window of a proof or commitment equal to a hidden scalar, e, A, the blind factor; a case = one transcript; in 1 run of 4: a free-running BURST (several nodes released into the library at the same time, outcomes judged by oracles that hold for any interleaving) of 3-6 holders each doing 2-6 rounds of KeyPair::random + BlindFactor::random + commit + proof_gen + blind_proof_gen on the same inputs, all fed to the same history monitor; 1 run in 16 is a VOLUME run: 150000 batches of random scalars and 500000 random blind factors (400000 / 2000000 thorough) drawn on four threads at once, none zero, no two equal",
+    rule: "one run = one credential (plain and blind) and K in 2..6 holder nodes, each on its own OS thread with its own entropy stream, each performing 2..6 generations (proof_gen, blind_proof_gen, commit, KeyPair::random + BlindFactor::random) on the SAME inputs, the first generation of every holder being the same operation, interleaved by the scheduler with tick preemption, holder crash-restart (fresh thread_rng) and EINTR / short reads in between; the wire monitor holds every witness and, over the whole history of the run, requires: recomputed blindings e~, m~_j, s~, cm~_i non-zero, >= 2^160 and pairwise distinct; responses, Abar, Bbar, D, commitments, blind factors, random keys never repeated; no 32/48-octet window of a proof or commitment equal to a hidden scalar, e, A, the blind factor; a case = one transcript; in 1 run of 4: a free-running BURST (several nodes released into the library at the same time, outcomes judged by oracles that hold for any interleaving) of 3-6 holders each doing 2-6 rounds of KeyPair::random + BlindFactor::random + commit + proof_gen + blind_proof_gen on the same inputs, all fed to the same history monitor; 1 run in 16 is a VOLUME run: 150000 batches of random scalars and 500000 random blind factors (400000 / 2000000 thorough) drawn on four threads at once, none zero, no two equal; every environment variable the library's sources read is set (64 octets of hex) before the first library call",
     quick_runs: 300,
     thorough_runs: 1500,
     run: scen_fresh::run_c07,
@@ -149,7 +149,7 @@ static C07: Check = Check {
 static C10: Check = Check {
     property: "C10",
     level: "exploration",
-    rule: "one run = 12..31 deterministic operations (KeyGen/SkToPk across the ikm, key_info and DST size limits; create_generators for counts 0..=64, 255..257 (1000+ thorough) and plain / blind / BLIND_ / empty / arbitrary api_ids; messages_to_scalars; hash_to_scalar across the DST limit; Sign with L up to 257 and headers across 255/256; BlindSign on a fixed request and without one; accept/reject decisions of verify, proof_verify, blind_sign(request), verify_blind_sign, blind_proof_verify on honest and singly mutated artefacts) spread over 1, 2-4, 5-8 or 16 nodes and interleaved by the scheduler with tick preemption; plus, in every run, create_generators for one count of the complete range 0..=64 (0..=1100 thorough) per suite, walking through the whole range with the run index; each result is compared with the executable spec model (octets and Ok/Err) and, for a sample, with the same operation alone on a fresh thread; the model must first reproduce all 110 fixture vectors; a case = one operation; in 1 run of 6 a burst of concurrent Generators::create on two fresh api_ids (one request of 100-220 overlapping 36 shorter ones) compared with the model during and after; in 1 run of 4 the MANY-KEYS WINDOW: a proof verification (2-41 messages) parked by forced preemption at phase:proof_verify_init and starved while 8-16 one-message proofs under other issuer keys are verified on three other nodes (the attacker's key last in 3 of 4), for an honest long proof (model accepts) and for a proof made from a signature computed with the attacker's secret over the issuer's domain (model rejects); Sign also under headers of 1023 .. 6000 octets, with one message of 1 .. 10 KiB, and for 32 / 33 / 64 / 65 / 128 / 129 / 258 messages; Sign and BlindSign also under a public key that is not the secret key's; in 1 run of 8 a COLD START: this engine re-executed as a child process in which 1, 2, 8 or 16 threads leave a barrier into the first library calls of the process (KeyGen + Sign + Verify + create_generators, or KeyPair::random + commit), every deterministic result compared with the model",
+    rule: "one run = 12..31 deterministic operations (KeyGen/SkToPk across the ikm, key_info and DST size limits; create_generators for counts 0..=64, 255..257 (1000+ thorough) and plain / blind / BLIND_ / empty / arbitrary api_ids; messages_to_scalars; hash_to_scalar across the DST limit; Sign with L up to 257 and headers across 255/256; BlindSign on a fixed request and without one; accept/reject decisions of verify, proof_verify, blind_sign(request), verify_blind_sign, blind_proof_verify on honest and singly mutated artefacts) spread over 1, 2-4, 5-8 or 16 nodes and interleaved by the scheduler with tick preemption; plus, in every run, create_generators for one count of the complete range 0..=64 (0..=1100 thorough) per suite, walking through the whole range with the run index; each result is compared with the executable spec model (octets and Ok/Err) and, for a sample, with the same operation alone on a fresh thread; the model must first reproduce all 110 fixture vectors; a case = one operation; in 1 run of 6 a burst of concurrent Generators::create on two fresh api_ids (one request of 100-220 overlapping 36 shorter ones) compared with the model during and after; in 1 run of 4 the MANY-KEYS WINDOW: a proof verification (2-41 messages) parked by forced preemption at phase:proof_verify_init and starved while 8-16 one-message proofs under other issuer keys are verified on three other nodes (the attacker's key last in 3 of 4), for an honest long proof (model accepts) and for a proof made from a signature computed with the attacker's secret over the issuer's domain (model rejects); Sign also under headers of 1023 .. 6000 octets, with one message of 1 .. 10 KiB, and for 32 / 33 / 64 / 65 / 128 / 129 / 258 messages; Sign and BlindSign also under a public key that is not the secret key's; in 1 run of 8 a COLD START: this engine re-executed as a child process in which 1, 2, 8 or 16 threads leave a barrier into the first library calls of the process (KeyGen + Sign + Verify + create_generators, or KeyPair::random + commit), every deterministic result compared with the model; decision operations also with the public key in its 192-octet coordinate form (the draft's octets_to_pubkey refuses it); Sign for 1024 .. 4097 messages now and then",
     quick_runs: 160,
     thorough_runs: 1500,
     run: scen_conform::run_c10,
@@ -162,7 +162,7 @@ static C10: Check = Check {
 static C11: Check = Check {
     property: "C11",
     level: "fault_enumeration",
-    rule: "one run = one honest session producing the five artefact kinds (signature, proof, commitment-with-proof, blind signature, blind proof) under (suite s, interface i); each is delivered to all endpoints (s', i') -- 3 foreign ones must reject, its own is the control -- complete matrix per run, run parity selects s; plus 6..13 Generators::create calls (counts 0..280, api_ids plain / blind / BLIND_ / none, both suites) spread over two nodes in a per-run order with tick preemption inside create_generators, checked for count, identity, P1, duplicates, prefix consistency with every earlier set of the same api_id and disjointness from every set of another api_id; a case = one delivery or one generator set; FORCED OVERLAPS in 2 runs of 3: a Generators::create of 40-199 on an api_id that is fresh in this process, parked at a generator index drawn per run while the other node requests 2-5 lists of 1-60 and then a longer one of the same api_id, every list compared with the model's; in 1 run of 2 the same on the merged blind generator list (prepare_parameters with 65-134 blind generators parked, 33-72 and longer ones meanwhile); in 1 run of 6 a burst of concurrent creates",
+    rule: "one run = one honest session producing the five artefact kinds (signature, proof, commitment-with-proof, blind signature, blind proof) under (suite s, interface i); each is delivered to all endpoints (s', i') -- 3 foreign ones must reject, its own is the control -- complete matrix per run, run parity selects s; plus 6..13 Generators::create calls (counts 0..280, api_ids plain / blind / BLIND_ / none, both suites) spread over two nodes in a per-run order with tick preemption inside create_generators, checked for count, identity, P1, duplicates, prefix consistency with every earlier set of the same api_id and disjointness from every set of another api_id; a case = one delivery or one generator set; FORCED OVERLAPS in 2 runs of 3: a Generators::create of 40-199 on an api_id that is fresh in this process, parked at a generator index drawn per run while the other node requests 2-5 lists of 1-60 and then a longer one of the same api_id, every list compared with the model's; in 1 run of 2 the same on the merged blind generator list (prepare_parameters with 65-134 blind generators parked, 33-72 and longer ones meanwhile); in 1 run of 6 a burst of concurrent creates; api_ids that differ from the fresh one only by a trailing LF / CR LF / CR",
     quick_runs: 120,
     thorough_runs: 1200,
     run: scen_domain::run_c11,
